@@ -64,6 +64,8 @@ def mutants(rng, src, k):
             t[i], t[j] = t[j], t[i]
         else:
             t = t[:i]                      # truncation
+            if rng.random() < 0.3:
+                t.append(rng.choice([" // cut", "//", " \"", " '", " 1."]))      # ... ending inside a comment or literal
         out.append("".join(t))
     return out
 
@@ -86,7 +88,11 @@ def nested(rng):
             "function main() -> void { final int n = (-2147483647 - 1); int[n / -1] a; }",
             "function main() -> void { final int n = 1; int[n % 0] a; }",
             "@shots(99999999999) function main() -> void { }",
-            "import nothing.here; function main() -> void { }"]
+            "import nothing.here; function main() -> void { }",
+            # input that ends inside a token or a comment
+            "function main() -> void { } // trailing comment, no newline", "//", "// only a comment", "function main() -> void { echo(1); } //",
+            "function main() -> void { echo(\"unterminated", "function main() -> void { echo('c", "function main() -> void { echo(1.", "function main() -> void { echo(1); } /",
+            "function main() -> void { } \n// last line\n// and another without newline"]
 
 
 def classify(c):
